@@ -823,6 +823,47 @@ class Engine:
         return binop(op, a, b)
 
     def ev_cond(self, e):
+        """Evaluate an expression in *condition context*: only its truth value
+        matters, so and/or/not become boolean connectives over the operands'
+        truth values (short-circuit: later operands are evaluated under the
+        guard of the earlier ones)."""
+        if isinstance(e, ast.BoolOp):
+            is_and = isinstance(e.op, ast.And)
+            vals = []
+            pushed = 0
+            unknown = False
+            try:
+                for x in e.values:
+                    v = self.ev_cond(x)
+                    if isinstance(v, Unknown):
+                        unknown = True
+                        continue
+                    tv = v if isinstance(v, (bool, SB)) else (truth(v) if (is_sym(v) or isinstance(v, int)) else
+                                                               (len(v.items) > 0 if isinstance(v, SymList) else bool(v)))
+                    if isinstance(tv, bool):
+                        if tv != is_and:
+                            return tv       # decided concretely: short circuit
+                        continue
+                    vals.append(tv)
+                    self.guards.append(tv.t if is_and else z3.Not(tv.t))
+                    pushed += 1
+            finally:
+                for _ in range(pushed):
+                    self.guards.pop()
+            if unknown:
+                return UNK
+            if not vals:
+                return is_and
+            return and_(*vals) if is_and else or_(*vals)
+        if isinstance(e, ast.UnaryOp) and isinstance(e.op, ast.Not):
+            v = self.ev_cond(e.operand)
+            if isinstance(v, Unknown):
+                return UNK
+            if isinstance(v, (bool, SB)) or is_sym(v) or isinstance(v, int):
+                return not_(v)
+            if isinstance(v, SymList):
+                return len(v.items) == 0
+            return not v
         return self.ev(e)
 
     def ev_index(self, sl):
